@@ -5,6 +5,7 @@ import (
 	"fmt"
 	"math/big"
 	"math/rand"
+	"os"
 	"sort"
 	"strings"
 
@@ -215,6 +216,16 @@ func (o *c12Oracle) AfterStep(e *core.Engine, idx int, st *core.Step, stepErr er
 		}
 	}
 	prev, cur := ob.Prev, ob.Cur
+	if os.Getenv("OLSIM_C12_DEBUG") != "" {
+		for _, t := range ob.Txs {
+			fmt.Fprintf(os.Stderr, "C12DBG h=%d tx %s code=%d log=%s\n", H, t.Label, t.Res.Code, clipS(t.Res.Log, 120))
+		}
+		for hh, m := range cur.DelegPending {
+			for a, x := range m {
+				fmt.Fprintf(os.Stderr, "C12DBG h=%d pending[%d][%s]=%s\n", H, hh, a, x)
+			}
+		}
+	}
 
 	var vs []core.Violation
 	classes := map[string]bool{}
@@ -758,6 +769,8 @@ func init() {
 		MakeSetup: func(rng *rand.Rand, tier string, seed uint64) *Setup {
 			k := SwarmKnobs(rng)
 			k.NumUsers = 5 + rng.Intn(3)
+			// (the maturity period is fixed: InitChain installs the constant network_delegation.RewardsMaturityTime = 4
+			// whatever the genesis document says, and the governance validation refuses to change it)
 			su := &Setup{Knobs: k, Sess: gen.NewSession()}
 			su.Replicas = append(su.Replicas, core.ReplicaConf{Identity: "x0", Quiet: true, Recent: 10, Every: 100, Cycles: 10, WitnessInitEarly: true})
 			su.Blocks = 28 + rng.Intn(18)
